@@ -737,12 +737,23 @@ func (e *cenv) callExpr(x *ECall) cval {
 			return cval{t: a.addr.Ref, sort: "Int"}
 		}
 		return e.fail("addr(%s): not a location", x.Args[0])
+	case "assigned":
+		// assigned(x.f): a store to the location x.f was executed since function entry
+		if !need(1) {
+			return boolv("true")
+		}
+		a := arg(0)
+		if a.addr == nil || (a.addr.Kind != "field" && a.addr.Kind != "cell") {
+			return e.fail("assigned(%s): not a field location", x.Args[0])
+		}
+		w := vc.heapVar("W!"+a.addr.Var, "(Array Int Bool)")
+		return boolv(fmt.Sprintf("(select %s %s)", vc.look(e.cur, w), a.addr.Ref))
 	case "unchanged":
 		// every heap variable known to this VC (two-pass generation registers all
 		// of them up front) has its old value
 		var eqs []string
 		for _, v := range sortedKeys(vc.hsort) {
-			if strings.HasPrefix(v, "$") {
+			if strings.HasPrefix(v, "$") || strings.HasPrefix(v, "W!") {
 				continue
 			}
 			eqs = append(eqs, sEq(vc.look(e.cur, v), vc.look(e.old, v)))
@@ -972,6 +983,9 @@ func (e *cenv) havocLoc(m Expr, st *State) {
 		_, out := arraySorts(sort)
 		nv := vc.fresh("hv", out)
 		vc.set(st, l.Var, sort, fmt.Sprintf("(store %s %s %s)", cur, l.Ref, nv))
+		if w := "W!" + l.Var; vc.hsort[w] != "" {
+			vc.set(st, w, vc.hsort[w], fmt.Sprintf("(store %s %s %s)", vc.look(st, w), l.Ref, vc.fresh("hw", "Bool")))
+		}
 	}
 }
 
